@@ -6,6 +6,9 @@ export GOFLAGS=-mod=mod GOPROXY=off GOSUMDB=off GOTOOLCHAIN=local GOWORK=off
 mkdir -p "$HERE/bin"
 need=0
 [ -x "$HERE/bin/apcheck" ] || need=1
+# a deleted or renamed source must trigger a rebuild too: compare the list of sources with the one recorded at build time
+cur="$(cd "$HERE/apcheck" && ls *.go go.mod | sort | tr '\n' ' ')"
+[ "$(cat "$HERE/bin/.sources" 2>/dev/null || true)" = "$cur" ] || need=1
 if [ $need = 0 ]; then
   for f in "$HERE"/apcheck/*.go "$HERE"/apcheck/go.mod; do
     [ "$f" -nt "$HERE/bin/apcheck" ] && need=1 && break
@@ -13,4 +16,5 @@ if [ $need = 0 ]; then
 fi
 if [ $need = 1 ]; then
   (cd "$HERE/apcheck" && go build -o "$HERE/bin/apcheck" .)
+  echo "$cur" > "$HERE/bin/.sources"
 fi
